@@ -23,6 +23,13 @@ def main():
     except ValueError:
         seed = 0
     import framework
+    import signal
+
+    def _timeout(signum, frame):
+        print("HARNESS-ERROR timeout (exit 2)")
+        os._exit(2)
+    signal.signal(signal.SIGALRM, _timeout)
+    signal.alarm(int(os.environ.get("VERIF_TIMEOUT", "1500" if args.tier != "thorough" else "5400")))
     try:
         chk = framework.Check("props." + args.prop.lower(), args.tier, seed, args.replay)
         rc = chk.run()
